@@ -253,6 +253,7 @@ function makeEnv(freeNames, seed, k, nobig) {
   const bindings = [];
   for (const name of freeNames) {
     if (BUILTINS.has(name)) continue;
+    if (/^zz/.test(name)) continue;         // names starting with zz are the generators' UNDECLARED identifiers: never bound
     let b;
     if (k === 0) b = { name, kind: 'U', p: 0.7 };                                   // logging host objects everywhere
     else if (k === 1) b = { name, kind: 'fn' };                                      // logging host functions returning primitives
